@@ -75,7 +75,8 @@ static void loadData(const std::string& path)
     for (auto& var : kv.second.at("vars").arr)
     {
       std::vector<double> col;
-      for (auto& e : var.arr) col.push_back(e.i() == na ? TEST : (double)e.i());
+      double den = kv.second.getd("den", 1.);
+      for (auto& e : var.arr) col.push_back(e.i() == na ? TEST : (double)e.i() / den);
       ds.v.push_back(col);
     }
     ds.sel = kv.second.at("sel").ints();
@@ -341,15 +342,17 @@ struct Engine
   {
     if (isNA(x)) return false;
     // the intervals are OPEN (Interval excludes both ends: the bound itself is already treated as outside)
-    double ylo = std::max(a->getPymin(), a->getAymin()), yhi = std::min(a->getPymax(), a->getAymax());
-    if (dir != "fwd") return x > ylo && x < yhi;
-    if (!(x > std::max(a->getPzmin(), a->getAzmin()) && x < std::min(a->getPzmax(), a->getAzmax()))) return false;
     if (a->isChangeSupportDefined())
     {
+      double ylo = std::max(a->getPymin(), a->getAymin()), yhi = std::min(a->getPymax(), a->getAymax());
+      if (dir != "fwd") return x > ylo && x < yhi;
+      if (!(x > std::max(a->getPzmin(), a->getAzmin()) && x < std::min(a->getPzmax(), a->getAzmax()))) return false;
       double zlo = a->transformToRawValue(ylo + 1e-9), zhi = a->transformToRawValue(yhi - 1e-9);
-      if (isNA(zlo) || isNA(zhi) || !(x > zlo && x < zhi)) return false;
+      return !(isNA(zlo) || isNA(zhi) || !(x > zlo && x < zhi));
     }
-    return true;
+    // point support: the absolute interval, linear tail extensions included
+    if (dir != "fwd") return x > a->getAymin() && x < a->getAymax();
+    return x > a->getAzmin() && x < a->getAzmax();
   }
   static int fitPca(PCA* p, const std::string& kind, const DataSet& ds, int opt)
   {
@@ -475,6 +478,38 @@ static void hermiteStateObs(const AnamHermite* h, int nuse, Value& ob, Value& al
     e = std::max(e, std::fabs(z - h->transformToRawValue(y)) / spread);
   }
   alg.push(algRec("psi-explains", e));
+  // point support: the practical interval lies inside the absolute one; between a practical and an absolute bound
+  // both directions are the same linear map: mutually inverse and increasing (19 points per existing tail)
+  if (!h->isChangeSupportDefined())
+  {
+    bool nested = h->getAzmin() <= h->getPzmin() && h->getPzmax() <= h->getAzmax() && h->getAymin() <= h->getPymin() && h->getPymax() <= h->getAymax();
+    alg.push(algRec("bounds-nested", nested ? 0. : 1.));
+    bool lo = h->getPzmin() - h->getAzmin() > 1e-9 * spread && h->getPymin() - h->getAymin() > 1e-6;
+    bool up = h->getAzmax() - h->getPzmax() > 1e-9 * spread && h->getAymax() - h->getPymax() > 1e-6;
+    double et = 0.; bool mono = true;
+    for (int side = 0; side < 2; side++)
+    {
+      if (!(side ? up : lo)) continue;
+      double za = side ? h->getPzmax() : h->getAzmin(), zb = side ? h->getAzmax() : h->getPzmin();
+      double ya = side ? h->getPymax() : h->getAymin(), yb = side ? h->getAymax() : h->getPymin();
+      double py = -1e300, pz = -1e300;
+      for (int k = 1; k < 20; k++)
+      {
+        double z = za + (zb - za) * k / 20., y = h->rawToTransformValue(z);
+        et = std::max(et, std::fabs(h->transformToRawValue(y) - z) / spread);
+        if (!(y > py) || !(y > ya && y < yb)) mono = false;
+        py = y;
+        double yy = ya + (yb - ya) * k / 20., zz = h->transformToRawValue(yy);
+        et = std::max(et, std::fabs(h->rawToTransformValue(zz) - yy));
+        if (!(zz > pz) || !(zz > za && zz < zb)) mono = false;
+        pz = zz;
+      }
+    }
+    alg.push(algRec("tails-inverse", et));
+    alg.push(algRec("tails-monotone", mono ? 0. : 1.));
+    ob["tailcfg"] = Value(std::string(lo ? "L" : "") + (up ? "U" : ""));
+  }
+  else ob["tailcfg"] = Value(std::string("block"));
   // mean = psi_0 whatever the support, variance = sum of the squared coefficients of order >= 1
   double v = 0.; for (size_t k = 1; k < psi.size(); k++) v += psi[k] * psi[k];
   alg.push(algRec("mean=psi0", std::fabs(h->getMean() - h->getPsiHn(0)) / std::max(1., std::fabs(h->getMean()))));
@@ -716,6 +751,16 @@ static Value runCase(int id, const Value& cs)
         }
         ob["rin"] = intsV(denseRank(in.v[0], res.dom));
         ob["rout"] = intsV(denseRank(res.v[0], res.dom));
+        {
+          int ntail = 0;
+          if (kind == "AH" && !a->isChangeSupportDefined())
+            for (int i = 0; i < in.n; i++) if (res.dom[i])
+            {
+              double x = in.v[0][i];
+              if (dir == "fwd" ? (x <= a->getPzmin() || x >= a->getPzmax()) : (x <= a->getPymin() || x >= a->getPymax())) ntail++;
+            }
+          ob["ntail"] = Value(ntail);
+        }
         // the round-trip law in the CURRENT state of the object: the opposite transform brings the output back
         {
           Arr back;
